@@ -359,12 +359,13 @@ func ParseSliceHeader(nalu []byte, spsMap map[uint32]*SPS, ppsMap map[uint32]*PP
 		sh.NumEntryPointOffsets = r.ReadExpGolomb()
 		if sh.NumEntryPointOffsets > 0 {
 			// value shall be in the range of 0 to 31, inclusive
-			sh.OffsetLenMinus1 = uint8(r.ReadExpGolomb())
-			if sh.NumEntryPointOffsets > 0 {
-				sh.EntryPointOffsetMinus1 = make([]uint32, sh.NumEntryPointOffsets)
-				for i := uint(0); i < sh.NumEntryPointOffsets; i++ {
-					sh.EntryPointOffsetMinus1[i] = uint32(r.Read(int(sh.OffsetLenMinus1 + 1)))
-				}
+			offsetLenMinus1 := r.ReadExpGolomb()
+			if offsetLenMinus1 > 31 {
+				return sh, fmt.Errorf("offset_len_minus1 %d is larger than 31", offsetLenMinus1)
+			}
+			sh.OffsetLenMinus1 = uint8(offsetLenMinus1)
+			for i := uint(0); i < sh.NumEntryPointOffsets && r.AccError() == nil; i++ {
+				sh.EntryPointOffsetMinus1 = append(sh.EntryPointOffsetMinus1, uint32(r.Read(int(sh.OffsetLenMinus1)+1)))
 			}
 		}
 	}
